@@ -118,6 +118,8 @@ def eval_case(ctx, case):
     for si, mp in enumerate(steps):
         renamed = {o: n for o, n in mp.items() if o != n}
         t = apply_renames(cur, mp)
+        for d in case.get("rmdirs", []) if si == 0 else []:   # a folder that lost all its files is removed as well
+            t = ops.edit(t, ["rm", d])
         if case.get("extra") and si == 0:
             t = ops.edit(t, ["write", "q/unrelated-new.bin", b"unrelated!!!"])   # same size as p/a.txt, other content
         desc = f"{case['layout']} step {si + 1} renames {renamed}"
@@ -137,6 +139,13 @@ def eval_case(ctx, case):
         if case.get("late") and si == 0 and renamed and r0.exit == 10:
             t = post0
         r1, post = run(ctx, t, ops.create("", fmts, dr=True, i=case.get("dr_i")), now + 10); stats["cmds"] += 1
+        if case.get("rmdirs"):
+            # the removed folder itself is a recorded entry that is gone: exactly it is reported (exit 10), none of the moved files
+            mb = missing_block(r1.err)
+            if r1.exc is not None or r1.exit != 10 or sorted(mb) != sorted(case["rmdirs"]):
+                V("dr-create-fails", f"{desc}, folder(s) {case['rmdirs']} removed: create -dr exit {r1.exit} {r1.exc}, reports missing {mb}; "
+                  f"expected exit 10 naming exactly the removed folder(s)\n{r1.err[-300:]}", exit=r1.exit, exc=(r1.exc or "").split(":")[0] or None)
+            return v, stats
         if r1.exc is not None or r1.exit != 0:
             V("dr-create-fails", f"{desc}: create -dr exit {r1.exit} {r1.exc}\n{r1.err[-400:]}", exit=r1.exit,
               exc=(r1.exc or "").split(":")[0] or None)
@@ -271,6 +280,22 @@ def main(tier, seed):
         mp = {f: target(f, k, NEST, hd[f]) for f, k in zip(files, kinds)}
         if len(set(mp.values())) == len(mp):
             cases.append({"layout": "nested-child", "base": nbase, "mapping": mp, "fmts": ["xxh64"]})
+    # a file renamed and later renamed BACK to its recorded name (and away again): A -> B, B -> A, A -> B, one step per generation
+    try:
+        rb = ops.build(ctx, FLAT, [c("", ["xxh64"])], expect=[0])
+        ident = {f: f for f in FLAT if FLAT[f] is not DIR}
+        away, back = dict(ident, **{"p/a.txt": "p/a-r.txt"}), {("p/a-r.txt" if f == "p/a.txt" else f): f for f in ident}
+        cases.append({"layout": "flat-rename-back", "base": rb, "mapping": away, "steps": [away, back], "fmts": ["xxh64"]})
+        cases.append({"layout": "flat-rename-back", "base": rb, "mapping": away, "steps": [away, back, away], "fmts": ["xxh64"]})
+        moved, moved_back = dict(ident, **{"p/a.txt": "q/a.txt"}), {("q/a.txt" if f == "p/a.txt" else f): f for f in ident}
+        cases.append({"layout": "flat-rename-back", "base": rb, "mapping": moved, "steps": [moved, moved_back], "fmts": ["xxh64"]})
+        # a folder recorded WITHOUT directory hashes (-n generation) loses all its files to another folder and is removed
+        nb = ops.build(ctx, FLAT, [c("", ["xxh64"], n=True)], expect=[0])
+        gone = {"p/a.txt": "q/a.txt", "p/b.txt": "q/b-r.txt", "q/c.txt": "q/c.txt"}
+        cases.append({"layout": "n-base-folder-vanishes", "base": nb, "mapping": gone, "rmdirs": ["p"], "fmts": ["xxh64"]})
+        cases.append({"layout": "n-base-folder-vanishes", "base": rb, "mapping": gone, "rmdirs": ["p"], "fmts": ["xxh64"]})
+    except ops.ScenarioFailure as f:
+        eng.notes.setdefault("skipped_scenarios", []).append(str(f)[:300])
     # a root history and a nested one that each hold a file with the SAME history-relative path (s/a.txt), renamed in one run
     TW = {"p": DIR, "p/s": DIR, "p/s/a.txt": b"content of a in the nested history", "s": DIR, "s/a.txt": b"content of a in the root history",
           "q": DIR, "q/c.txt": b"content of c, distinct too"}
